@@ -314,10 +314,35 @@ def r1_wiring(ctx):
             for lab, body, extra, node in A.branch_chain([n], lambda e: isinstance(e, ast.Name)):
                 if lab not in (None, '?'):
                     labels.add(lab)
+                    local = {}
                     for st in body:
+                        if isinstance(st, ast.Assign) and len(st.targets) == 1 and isinstance(st.targets[0], ast.Tuple) \
+                                and isinstance(st.value, ast.Tuple) and len(st.value.elts) == len(st.targets[0].elts):
+                            for tn, tv in zip(st.targets[0].elts, st.value.elts):
+                                if isinstance(tn, ast.Name):
+                                    local[tn.id] = tv
                         for c in A.calls_in(st):
-                            if A.call_target(c)[0] == 'self' and A.call_target(c)[1].endswith('_error'):
-                                sinks[lab] = A.call_target(c)[1]
+                            fnx = c.func
+                            if isinstance(fnx, ast.Name) and fnx.id in local:
+                                fnx = local[fnx.id]
+                            if isinstance(fnx, ast.Attribute) and path_of(fnx.value) == 'self' and fnx.attr.endswith('_error'):
+                                sinks[lab] = fnx.attr
+    if not labels:
+        # table form: {'ST': (.., self._st_error, ..), ...}[seg] looked up per open envelope and the entry's sink called
+        for d in ast.walk(cfn):
+            if isinstance(d, ast.Dict) and d.keys and all(isinstance(k, ast.Constant) and isinstance(k.value, str) for k in d.keys):
+                tab = {}
+                for k, v in zip(d.keys, d.values):
+                    refs = [x.attr for x in ast.walk(v) if isinstance(x, ast.Attribute) and path_of(x.value) == 'self' and x.attr.endswith('_error')]
+                    if len(refs) == 1:
+                        tab[k.value] = refs[0]
+                indirect = [c for c in A.calls_in(cfn) if isinstance(c.func, ast.Name)
+                            or (isinstance(c.func, ast.Subscript) and isinstance(c.func.value, ast.Subscript))]
+                if len(tab) == len(d.keys) and indirect:
+                    labels = set(tab)
+                    sinks = tab
+    if not labels:
+        raise AnalysisError('X12Reader.cleanup: neither an if-chain nor a dispatch table over the envelope type was recognised')
     ok = labels == set(HEADERS)
     yield Ob('x12file:X12Reader.cleanup handles exactly the pushed types', ok, ctx.floc(cfn),
              '' if ok else 'handles %s, pushed types are %s' % (sorted(labels), sorted(HEADERS)))
@@ -383,7 +408,7 @@ def r3_int_total(ctx):
 
 
 RULES = [
-    Rule('C04.R1', 'header/trailer compare-reset wiring derived from the branch labels of _parse_segment', r1_wiring, floor=50),
-    Rule('C04.R2', 'top-of-stack reads/deletes/pops of emptiable lists hold NonEmpty (typestate on the CFG)', r2_stack_safety, floor=18),
-    Rule('C04.R3', '_int is total over str|None; no bare int() on run-time values in x12file', r3_int_total, floor=2),
+    Rule('C04.R1', 'header/trailer compare-reset wiring derived from the branch labels of _parse_segment', r1_wiring, floor=37),
+    Rule('C04.R2', 'top-of-stack reads/deletes/pops of emptiable lists hold NonEmpty (typestate on the CFG)', r2_stack_safety, floor=13),
+    Rule('C04.R3', '_int is total over str|None; no bare int() on run-time values in x12file', r3_int_total, floor=1),
 ]
